@@ -302,15 +302,71 @@ def _simple(v, depth=0):
     return ("obj", type(v).__name__), True
 
 
+class VThreads:
+    """Stand-in for the `threading` module inside the code under test, for one extra execution per configuration: a thread
+    started by the parent does not run until some thread is joined; then all threads that are pending run to completion one
+    after the other, the most recently started first. Nothing orders unjoined threads against each other, so this is one of
+    their legal schedules (a slow early writer, a fast late one). An exception that ends a thread (SystemExit included) is
+    swallowed, as the interpreter does."""
+
+    def __init__(self, real):
+        self._real = real
+        self.pending = []
+        self.used = 0
+
+    def __getattr__(self, name):
+        return getattr(self._real, name)
+
+    def Thread(self, group=None, target=None, name=None, args=(), kwargs=None, daemon=None):
+        owner = self
+
+        class T:
+            def __init__(s_):
+                s_.target, s_.args, s_.kwargs, s_.done, s_.started = target, args, kwargs or {}, False, False
+                s_.name, s_.daemon = name or "VThread", daemon
+
+            def start(s_):
+                s_.started = True
+                owner.used += 1
+                owner.pending.append(s_)
+
+            def _run(s_):
+                if not s_.done:
+                    s_.done = True
+                    try:
+                        s_.target(*s_.args, **s_.kwargs)
+                    except (ModelIncomplete, ReplayDivergence, Hang):
+                        raise
+                    except BaseException:
+                        pass
+
+            def join(s_, timeout=None):
+                todo, owner.pending = owner.pending[::-1], []
+                for t in todo:
+                    t._run()
+                s_._run()
+
+            def is_alive(s_):
+                return s_.started and not s_.done
+
+        return T()
+
+    def flush(self):
+        todo, self.pending = self.pending[::-1], []
+        for t in todo:
+            t._run()
+
+
 class Exec:
     """One execution of run_realign under a given choice prefix."""
 
-    def __init__(self, cfg, prefix=(), fault=None, want_state=True, starve=None):
+    def __init__(self, cfg, prefix=(), fault=None, want_state=True, starve=None, lazy_threads=False):
         # starve = (i, K): from the i-th recorded choice point on, "the parent acts first" is taken whenever it is on offer,
         # up to K times (a worker that is slow for a long time); afterwards the default schedule. On code whose state does
         # not change over a timed-out read the stutter rule withdraws the offer at once, so this costs nothing there.
         self.starve = starve
         self.starved = 0
+        self.lazy_threads = lazy_threads
         self.horizon = HORIZON + (4 * starve[1] if starve else 0)
         self.cfg = cfg
         self.prefix = list(prefix)
@@ -659,6 +715,11 @@ class Exec:
         vmp = VirtualMP(self)
         old_mp = R.mp
         R.mp = vmp
+        self.vthreads = None
+        old_threading = getattr(R, "threading", None)
+        if self.lazy_threads and old_threading is not None:
+            self.vthreads = VThreads(old_threading)
+            R.threading = self.vthreads
         old_batch = os.environ.get("GAFTOOLS_VERIF_BATCH")
         os.environ["GAFTOOLS_VERIF_BATCH"] = str(self.cfg["batch"])
         os.environ[fw.GUARD] = "1"
@@ -680,6 +741,8 @@ class Exec:
                     outcome = ("exc", type(e).__name__, fw.innermost_gaftools_frame(e.__traceback__)[1:])
         finally:
             R.mp = old_mp
+            if self.vthreads is not None:
+                R.threading = old_threading
             if old_batch is None:
                 os.environ.pop("GAFTOOLS_VERIF_BATCH", None)
             else:
